@@ -354,6 +354,23 @@ func retryExecute(c *hk.Ctx) {
 			cs := cas{cfg: &mcp.VerifRetryConfig{MaxRetries: mr, InitialBackoff: time.Duration(ib), BackoffFactor: f, MaxBackoff: time.Duration(mb)}, script: s}
 			if c.Rng.Intn(3) == 0 {
 				at := int64(c.Rng.Intn(60))*ms + ms/2
+				// the real clock cannot resolve a cancellation that falls within a millisecond of the instant an attempt
+				// starts (a timer that fires late under load flips the outcome): keep the instant at least 3 ms (or half a
+				// wait) away from every attempt instant of this configuration
+				bound, w := int64(0), float64(ib)
+				for k := 0; k <= mr; k++ {
+					wait := int64(math.Min(w, float64(mb)))
+					if d := at - bound; d > -3*ms && d < 3*ms {
+						shift := 3 * ms
+						if k < mr && wait/2 < shift {
+							shift = wait / 2
+						}
+						at = bound + shift
+						break
+					}
+					bound += wait
+					w *= f
+				}
 				cs.cancel = &at
 			}
 			cases = append(cases, cs)
